@@ -373,6 +373,60 @@ func c17(c *Ctx) {
 		}
 		r.Check(ok, "R17.M", "request-reissued", c.pos(mk.Pos()), "when the error was handled (nil), makeRequest(data, …) is called again with the same request")
 	}
+	c.reissueOnlyWhenAsked("R17.M")
+	// "the address configured for data centre X": what SetDCList is given wins over what the table held (the built-in
+	// addresses of data centres 1..5 are there from the start) - if the table is rebuilt aside, the caller's entries
+	// are written after the old ones, not before
+	if sd := c.P.Func(load.RootMod, "*MTProto", "SetDCList"); sd != nil && len(sd.Params) == 2 {
+		fromParam := func(v ssa.Value) (isIn, isOld bool) {
+			ex, ok := v.(*ssa.Extract)
+			if !ok {
+				return
+			}
+			nx, ok := ex.Tuple.(*ssa.Next)
+			if !ok {
+				return
+			}
+			rg, ok := nx.Iter.(*ssa.Range)
+			if !ok {
+				return
+			}
+			if rg.X == ssa.Value(sd.Params[1]) {
+				return true, false
+			}
+			if strings.HasSuffix(tr.OriginString(rg.X), "MTProto.dclist") {
+				return false, true
+			}
+			return
+		}
+		var ins, olds []*ssa.BasicBlock
+		for _, b := range sd.Blocks {
+			for _, in := range b.Instrs {
+				if mu, ok := in.(*ssa.MapUpdate); ok {
+					isIn, isOld := fromParam(mu.Value)
+					if isIn {
+						ins = append(ins, b)
+					}
+					if isOld {
+						olds = append(olds, b)
+					}
+				}
+			}
+		}
+		if len(ins) == 0 {
+			r.Undecide("R17.M", "configured-address-wins", c.pos(sd.Pos()), "no map update from the entries of SetDCList's argument found")
+		} else {
+			okOrder := true
+			for _, bi := range ins {
+				for _, bo := range olds {
+					if reachesBlock(bi, bo, map[*ssa.BasicBlock]bool{}) && !reachesBlock(bo, bi, map[*ssa.BasicBlock]bool{}) {
+						okOrder = false
+					}
+				}
+			}
+			r.Check(okOrder, "R17.M", "configured-address-wins", c.pos(sd.Pos()), sprintf("%d update(s) from the argument, %d from the old table: the old entries are copied after the caller's and overwrite them (the built-in address of a data centre beats the configured one)", len(ins), len(olds)))
+		}
+	}
 	// "reconnects to the address configured for data centre X": the address the migrate arm has just set is the one
 	// Reconnect dials - nothing reachable from Reconnect (outside the key exchange) assigns MTProto.addr again
 	if rc := c.P.Func(load.RootMod, "*MTProto", "Reconnect"); rc != nil {
@@ -512,4 +566,55 @@ func freshMap(v ssa.Value, depth int, why *string) bool {
 	}
 	*why = "a value that is not made on the spot (" + v.Name() + ")"
 	return false
+}
+
+// reissueOnlyWhenAsked: makeRequest writes the request again only (a) in the rpc_error arm, behind a handled error,
+// or (b) in an arm that is entered for *errorSessionConfigsChanged alone.  Any other answer - a dh_gen_retry, an
+// rpc_error of some code - is handed to the caller, who decides.
+func (c *Ctx) reissueOnlyWhenAsked(rule string) {
+	r := c.R
+	mk := c.P.Func(load.RootMod, "*MTProto", "makeRequest")
+	if mk == nil {
+		r.Undecide(rule, "reissue:only-when-asked", "", "makeRequest not found")
+		return
+	}
+	okEdges := map[string][]an.Edge{}
+	for _, b := range mk.Blocks {
+		for _, in := range b.Instrs {
+			ta, ok := in.(*ssa.TypeAssert)
+			if !ok || !ta.CommaOk {
+				continue
+			}
+			i, ok := b.Instrs[len(b.Instrs)-1].(*ssa.If)
+			if !ok {
+				continue
+			}
+			name := ta.AssertedType.String()
+			okEdges[name[strings.LastIndex(name, ".")+1:]] = append(okEdges[name[strings.LastIndex(name, ".")+1:]], an.Edge{From: i.Block(), Succ: 0})
+		}
+	}
+	var bad []string
+	n := 0
+	for _, cs := range an.Calls(mk) {
+		if !strings.HasSuffix(cs.Name, "MTProto).makeRequest") {
+			continue
+		}
+		n++
+		okArm := false
+		for _, name := range []string{"RpcError", "errorSessionConfigsChanged"} {
+			for _, e := range okEdges[name] {
+				if len(an.Guarded(mk, []an.Edge{e}, []ssa.Instruction{cs.Instr})) == 0 {
+					okArm = true
+				}
+			}
+		}
+		if !okArm {
+			bad = append(bad, "the re-issue at "+c.pos(cs.Pos())+" is reachable for an answer that is neither an rpc_error nor the retry marker")
+		}
+	}
+	if n == 0 {
+		r.Hold(rule, "reissue:only-when-asked", c.pos(mk.Pos()), "makeRequest never re-issues")
+		return
+	}
+	r.Check(len(bad) == 0, rule, "reissue:only-when-asked", c.pos(mk.Pos()), sprintf("%d re-issue(s); %s", n, strings.Join(bad, "; ")))
 }
